@@ -344,6 +344,18 @@ func runC02(ctx *Ctx) {
 	}
 	n := genRowCount(r, maxBlocks)
 	t := GenTable(r, nCols, n, pk, 0) // unique keys
+	if len(t.Rows) > 0 && nCols >= 2 && r.Intn(3) == 0 {
+		// one row whose key is all empty strings (still unique; it sorts first). Not for one-column
+		// tables: a lone empty cell is a blank CSV line, which is not a record.
+		i := r.Intn(len(t.Rows))
+		kc := pk
+		if len(kc) == 0 {
+			kc = []int{0}
+		}
+		for _, k := range kc {
+			t.Rows[i][k] = ""
+		}
+	}
 	c02Case(ctx, t)
 }
 
@@ -402,6 +414,52 @@ func c02Case(ctx *Ctx, t *TableSpec, tags ...string) {
 				}
 				i, c := r.Intn(len(s.Rows)), r.Intn(len(s.Columns))
 				s.Rows[i][c] += "!"
+				return true
+			}},
+			{"cell-of-first-row", func(s *TableSpec) bool {
+				// a non-key cell (when there is one) of the row that sorts first
+				if len(s.Rows) == 0 {
+					return false
+				}
+				kc := []int{}
+				for _, k := range s.PK {
+					for ci, c := range s.Columns {
+						if c == k {
+							kc = append(kc, ci)
+						}
+					}
+				}
+				if len(kc) == 0 {
+					for ci := range s.Columns {
+						kc = append(kc, ci)
+					}
+				}
+				key := func(row []string) string {
+					b := ""
+					for _, k := range kc {
+						b += row[k] + "\x00"
+					}
+					return b
+				}
+				first := 0
+				for i := range s.Rows {
+					if key(s.Rows[i]) < key(s.Rows[first]) {
+						first = i
+					}
+				}
+				col := len(s.Columns) - 1
+				for ci := range s.Columns {
+					isKey := false
+					for _, k := range kc {
+						if k == ci {
+							isKey = true
+						}
+					}
+					if !isKey {
+						col = ci
+					}
+				}
+				s.Rows[first][col] += "!"
 				return true
 			}},
 			{"column-name", func(s *TableSpec) bool {
